@@ -939,11 +939,11 @@ func c08doOpts(a c08ans) []bpmn.DoOption {
 	var opts []bpmn.DoOption
 	if !a.ok {
 		if a.mode == 0 {
-			opts = append(opts, bpmn.DoWithErr(fmt.Errorf("boom")))
+			opts = append(opts, bpmn.DoWithErr(eng.WorkerError()))
 		} else {
 			ch := make(chan bpmn.ErrHandler, 1)
 			ch <- bpmn.ErrHandler{Mode: bpmn.ErrHandleMode(a.mode), Retries: a.retries}
-			opts = append(opts, bpmn.DoWithErrHandle(fmt.Errorf("boom"), ch))
+			opts = append(opts, bpmn.DoWithErrHandle(eng.WorkerError(), ch))
 		}
 	}
 	if a.results != nil {
@@ -992,7 +992,7 @@ func c08engAnswer(in *eng.Inst, q *eng.Req, a c08ans) {
 	} else {
 		in.Op("answer %s %d err %d %d", q.Node, q.Occ, a.mode, a.retries)
 		if a.mode == 0 {
-			opts = append(opts, bpmn.DoWithErr(fmt.Errorf("boom")))
+			opts = append(opts, bpmn.DoWithErr(eng.WorkerError()))
 		} else {
 			ch := make(chan bpmn.ErrHandler, 1)
 			if a.lateMs > 0 {
@@ -1007,7 +1007,7 @@ func c08engAnswer(in *eng.Inst, q *eng.Req, a c08ans) {
 			} else {
 				ch <- bpmn.ErrHandler{Mode: bpmn.ErrHandleMode(a.mode), Retries: a.retries}
 			}
-			opts = append(opts, bpmn.DoWithErrHandle(fmt.Errorf("boom"), ch))
+			opts = append(opts, bpmn.DoWithErrHandle(eng.WorkerError(), ch))
 		}
 		if a.results != nil {
 			in.Note("c08 errres %s", fmtVars(a.results))
